@@ -256,14 +256,25 @@ theorem lin_eff {db0 : Db C R D} (s : S C R W D) (t : Tid) (i : Instr R W D) (re
       · rw [hnone] at hop; cases hop
   | stop r db =>
     simp only
-    refine lin_abort ops h1 h r db ?_ ?_
-    · intro hw hwo o hop
-      obtain ⟨o', hop', hr⟩ := h.active t hw hwo
-      rw [hop] at hop'; injection hop' with hop'; subst hop'
-      rw [hp, runCS_cons_isEff ops i rest hi, he] at hr
-      exact hr.symm
-    · intro hno
-      exact (eff_db_of_not_own ops i rest _ _ (hnown hno) ht (s.thr t).regs s.db).2 _ _ he
+    split
+    · -- inside the write-guard section: the unwinding path is entered (guards still held)
+      rename_i hown
+      simp only [Bool.and_eq_true, beq_iff_eq] at hown
+      refine lin_quiet ops h (fun u hu => by simp [upd_other _ _ _ _ hu]) (fun _ _ => Iff.rfl) rfl rfl rfl rfl
+        (by simp) (fun hw => h.hasop t hw) ?_ ?_
+      · intro hw _
+        refine ⟨hw, ?_⟩
+        simp only [upd_same, hp]
+        rw [runCS_cons_isEff ops i rest hi, he]
+        cases (s.m == some t) <;> simp [unwind, runCS, eff]
+      · intro hno; exact absurd hown hno
+    · rename_i hnown'
+      have hno : ¬ (s.wbit = some t ∧ s.wown = true) := by
+        simpa only [Bool.and_eq_true, beq_iff_eq] using hnown'
+      refine lin_abort ops h1 h r db ?_ ?_
+      · intro hw hwo; exact absurd ⟨hw, hwo⟩ hno
+      · intro _
+        exact (eff_db_of_not_own ops i rest _ _ (hnown hno) ht (s.thr t).regs s.db).2 _ _ he
 
 theorem lin_exec {db0 : Db C R D} (s : S C R W D) (t : Tid) (i : Instr R W D) (rest : List (Instr R W D))
     (h1 : Inv1 s) (h : Lin ops db0 s) (hp : (s.thr t).prog = i :: rest) :
@@ -407,7 +418,7 @@ theorem lin_exec {db0 : Db C R D} (s : S C R W D) (t : Tid) (i : Instr R W D) (r
         simpa [hp, afterAcq] using this
       · have := h.hist
         simpa [hnw] using this
-  | aWriteUnlock =>
+  | aWriteUnlock rv =>
     simp only [exec]
     have hown : s.wbit = some t ∧ s.wown = true := by
       rcases wsOf_cases s t with ⟨hw, h2, h3⟩ | ⟨hw, _⟩ | ⟨hw, _⟩ | ⟨hw, _⟩ <;> rw [hw] at ht <;>
@@ -462,6 +473,20 @@ theorem lin_next {db0 : Db C R D} (s : S C R W D) (e : Event R W D) (h1 : Inv1 s
     · exact h
     · rename_i i rest hp
       exact lin_exec ops s t i rest h1 h hp
+  | spur t u =>
+    simp only [next]
+    split
+    · rename_i rest hp
+      split
+      · have ht := h1.typed t
+        rw [hp] at ht
+        have hpre : s.wbit ≠ some t := by
+          rcases wsOf_cases s t with ⟨hw, _⟩ | ⟨hw, _⟩ | ⟨hw, h2, _⟩ | ⟨hw, _⟩ <;> rw [hw] at ht <;>
+            simp [wf] at ht
+          exact h2
+        exact lin_abort ops h1 h .busy s.db (fun hw => absurd hw hpre) (fun _ => rfl)
+      · exact h
+    · exact h
 
 theorem inv_lin_run {db0 : Db C R D} (evs : List (Event R W D)) (s : S C R W D)
     (he : ∀ e ∈ evs, e.isCode = true) (h1 : Inv1 s) (h : Lin ops db0 s) :
